@@ -500,7 +500,7 @@ def mutate(rng, spec, ci, force_kind=None):
     n = s["node"]
     names = [x for x in dict.fromkeys(n.input) if x]
     kinds = ["elem", "rank", "dim-unknown", "dim-symbolic", "rank-unknown", "untyped", "drop-optional", "dup-optional",
-             "same-var", "attr-perturb", "attr-remove", "attr-explicit-default", "const-one", "const-all", "variadic-len"]
+             "same-var", "attr-perturb", "attr-remove", "attr-explicit-default", "attr-empty-list", "const-one", "const-all", "variadic-len"]
     kind = force_kind or rng.choice(kinds)
     s["mut"] = kind
     s["base_other_schema"] = spec.get("mut") == "other-schema" or spec.get("base_other_schema", False)
@@ -607,6 +607,26 @@ def mutate(rng, spec, ci, force_kind=None):
             del a.floats[:]
             a.floats.extend(v)
         s["mut"] = f"attr-perturb:{a.name}"
+        return s
+    if kind == "attr-empty-list":
+        # an explicitly given EMPTY list is not "attribute absent": ONNX sees a zero-length list (Constant(value_ints=[]) is
+        # int64[0]; Conv(pads=[]) is an error; Transpose(perm=[]) is not the default permutation)
+        LISTS = (AttributeProto.INTS, AttributeProto.FLOATS, AttributeProto.STRINGS)
+        have = {a.name for a in n.attribute}
+        present = [a for a in n.attribute if a.type in LISTS]
+        absent = [k for k, _ in ci.attr_fields if k not in have and ci.attr_kind(k) in LISTS]
+        if not present and not absent:
+            return None
+        if present and (not absent or rng.random() < 0.5):
+            a = rng.choice(present)
+            del a.ints[:]
+            del a.floats[:]
+            del a.strings[:]
+        else:
+            k = rng.choice(absent)
+            a = n.attribute.add()
+            a.name, a.type = k, ci.attr_kind(k)
+        s["mut"] = f"attr-empty-list:{a.name}"
         return s
     if kind == "attr-remove":
         cand = [i for i, a in enumerate(n.attribute)
